@@ -550,6 +550,8 @@ func (i *Program) initReflect() {
 		"Out":       newMethod(i.reflectPackage, rtypeType, "Out"),
 		"Size":      newMethod(i.reflectPackage, rtypeType, "Size"),
 		"String":    newMethod(i.reflectPackage, rtypeType, "String"),
+		"Name":      newMethod(i.reflectPackage, rtypeType, "Name"),
+		"PkgPath":   newMethod(i.reflectPackage, rtypeType, "PkgPath"),
 	}
 	i.errorMethods = methodSet{
 		"Error": newMethod(i.reflectPackage, errorType, "Error"),
